@@ -65,6 +65,12 @@ Theorem C11_read_your_writes_prefix : forall s b h prefix, keys_sorted s -> keys
 Proof. exact read_your_writes_prefix. Qed.
 Print Assumptions C11_read_your_writes_prefix.
 
+(* ... and it returns every key once *)
+Theorem C11_read_your_writes_prefix_once : forall s b h prefix, keys_sorted s -> keys_bytes s -> batch_wf b ->
+  bytes_ok (h_path h) -> bytes_ok prefix -> NoDup (map fst (get_by_prefix s (Some b) h prefix)).
+Proof. exact get_by_prefix_nodup. Qed.
+Print Assumptions C11_read_your_writes_prefix_once.
+
 (* partial: whenever a bucket listing inside a write transaction succeeds it is, as a set, the values of the bucket
    index entries under the listing prefix in the store as it would be after commit.  Missing for full strength: that
    the listing never answers ErrIllegalValue in reachable states and that those entries are exactly the children
